@@ -18,7 +18,7 @@
        acquirer; unlock_without_wakeup only ends sections that changed no condition state;
      - condition callbacks only read state protected by the mutex;
      - notes are freed by the main thread after every worker finished.  */
-#include "common.h"
+#include "sc.h"
 
 #define NV 4
 #define NCV 2
